@@ -286,6 +286,47 @@ def qe_tr_family(ctx):
                                "diffs": diffs[:10]})
 
 
+REJECTING_STEP_SEEDS = (26, 38, 52, 67, 81, 92, 99, 105, 138, 150, 160, 170)
+
+
+def rejecting_step_family(ctx):
+    """Fixed family (own PRNG, independent of VERIF_SEED and of how many random numbers other generators draw):
+    hilly low-flow meshes in which automatic damping really rejects Newton steps.  Only about one lowflow mesh in
+    fifteen does, so drawing them from the shared stream made the detection of a convergence test that skips
+    rejected variables (seeded C08-3) depend on the seed; the twelve meshes below were selected because a run with
+    automatic damping restores old values in them.  Each is solved with constant damping, then from three perturbed
+    pn_bar assignments with both damping strategies, at the solver's default tolerances and at tight ones."""
+    import random
+    for i in REJECTING_STEP_SEEDS:
+        spec = lowflow_mesh(random.Random(7300 + i))
+        for profile, base_kw, atol in (("lowflow_default_tol", dict(mode="hydraulics", use_numba=False, iter=100), 1e-3),
+                                       ("lowflow", dict(mode="hydraulics", use_numba=False, **TIGHT), 1e-7)):
+            st0, r0 = run_variant(spec, **base_kw)
+            ctx.count("rejecting_family_base_" + st0)
+            if st0 != "ok":
+                continue
+            rr = random.Random(9100 + i)
+            for v in range(3):
+                vs = perturb_spec(spec, rr, "pn_bar", 0.2, 2.5)
+                for kw in (base_kw, dict(base_kw, nonlinear_method="automatic")):
+                    st, r = run_variant(vs, **kw)
+                    name = "%s_start_%d" % (kw.get("nonlinear_method", "constant"), v)
+                    ctx.case({"family": "rejecting_step", "i": i, "profile": profile, "variant": name, "status": st},
+                             st == "ok", key="rej:%d:%s:%s" % (i, profile, name))
+                    if st != "ok":
+                        continue
+                    diffs = compare(r0, r, atol=atol, rtol=1e-9)
+                    if diffs:
+                        ctx.violation({"clause": "start_value_or_damping_independence",
+                                       "variant": "automatic" if "nonlinear_method" in kw else "start",
+                                       "profile": "rejecting_step_family", "mode": "hydraulics",
+                                       "where": refine_where(stagnant_classes(spec, r0, r, diffs), vs, diffs)},
+                                      "two converged runs of the same physical network disagree: %s %s (first of %d)"
+                                      % (diffs[0][0], diffs[0][1], len(diffs)),
+                                      {"spec": spec, "variant_spec": vs, "base_options": base_kw, "variant_options": kw,
+                                       "diffs": diffs[:10]})
+
+
 def run(ctx):
     ctx.extra["rule"] = ("generated water / gas / heat networks (tools/harness/gen.py); each is re-run with 3 random "
                          "start-value assignments (pn_bar x U(0.4,2.5) per junction in hydraulics; tfluid_k x U(0.9,1.1) "
@@ -307,11 +348,12 @@ def run(ctx):
     # fixed mix: ordinary generated nets + the low-flow meshes in which automatic damping rejects steps
     mult = 1 if ctx.quick else 14
     plan = (["water"] * 5 + ["water_thermal"] * 4 + ["gas"] * 4 + ["gas_hilly"] * 7 + ["heat"] * 4 + ["heat_qe_tr"] * 6 + ["lowflow"] * 6 +
-            ["lowflow_default_tol"] * 14 + ["lowflow_thermal"] * 5) * mult
+            ["lowflow_default_tol"] * 6 + ["lowflow_thermal"] * 5) * mult
     n_nets = len(plan)
     nconv = 0
     corpus_witness(ctx)
     qe_tr_family(ctx)
+    rejecting_step_family(ctx)
     for k in range(n_nets):
         profile = plan[k]
         if profile.startswith("lowflow"):
